@@ -15,6 +15,10 @@ Attempt tryWrite(const ezc3d::c3d &o, const std::string &path) {
     return a;
 }
 void setFsize(rlim_t soft) { struct rlimit rl; getrlimit(RLIMIT_FSIZE, &rl); rl.rlim_cur = soft; setrlimit(RLIMIT_FSIZE, &rl); }
+// one-shot fault: the first write that cannot place a single byte below the limit fails with EFBIG and raises SIGXFSZ; the handler lifts
+// the limit, so every later write succeeds again (a disk that was full for a moment)
+volatile sig_atomic_t g_oneShotFired = 0;
+void liftLimit(int) { g_oneShotFired = 1; struct rlimit rl; getrlimit(RLIMIT_FSIZE, &rl); rl.rlim_cur = RLIM_INFINITY; setrlimit(RLIMIT_FSIZE, &rl); }
 }
 
 CaseResult runC15(const Case &c, RunCtx &ctx) {
@@ -80,6 +84,39 @@ CaseResult runC15(const Case &c, RunCtx &ctx) {
         if (k >= 1) ++afterFirstByte;
         if (!expectThrow(a, "the file size limit was hit at offset " + std::to_string(k) + " of " + std::to_string(N) + " (replay: same case; RLIMIT_FSIZE=" + std::to_string(k) + ")")) return r;
     }
+    // ---- one write refused at offset k, every later write accepted (transient fault) ----
+    // the save must either throw or, if it returns normally, have produced the complete file
+    long long transient = 0, transientThrown = 0;
+    {
+        std::vector<size_t> toffs;
+        if (N <= 3000) for (size_t k = 1; k < N; ++k) toffs.push_back(k);
+        else {
+            for (size_t k = 1; k < 2048 && k < N; k += 3) toffs.push_back(k);
+            for (size_t k = 2048; k < N; k += (ctx.tier ? 61 : 509)) toffs.push_back(k);
+            for (size_t b = 512; b < N; b += 512) { toffs.push_back(b - 1); toffs.push_back(b); toffs.push_back(b + 1); }
+            for (size_t b = 8191; b < N; b += 8191) { toffs.push_back(b); toffs.push_back(b + 1); }
+            toffs.push_back(N - 1);
+        }
+        const std::string tp = in.path("c15_transient.c3d");
+        for (size_t k : toffs) {
+            if (k >= N) continue;
+            remove(tp.c_str());
+            g_oneShotFired = 0;
+            signal(SIGXFSZ, liftLimit);
+            setFsize(static_cast<rlim_t>(k));
+            Attempt a = tryWrite(o, tp);
+            setFsize(RLIM_INFINITY);
+            signal(SIGXFSZ, SIG_IGN);
+            ++transient; ++faults; ++afterFirstByte;
+            if (a.threw) { ++transientThrown; classes[a.cls]++; if (a.cls == "non_std") { r.fail("write threw a non-standard exception on a transient fault"); return r; } continue; }
+            std::vector<uint8_t> b; readBytes(tp, b);
+            if (b != ref) {
+                r.fail("write returned normally although one write was refused at offset " + std::to_string(k) + " of " + std::to_string(N) + " (transient fault: later writes were accepted) and the file on disk is not the complete file (" + std::to_string(b.size()) + " bytes" + (g_oneShotFired ? "" : ", limit never hit") + ")");
+                return r;
+            }
+        }
+    }
+    r.counters["transient_faults"] = transient; r.counters["transient_faults_reported_by_exception"] = transientThrown;
     // ---- no fault: returns normally with the full content ----
     {
         Attempt a = tryWrite(o, lim);
